@@ -30,7 +30,9 @@ META = {
              "with set, frozenset, the set itself and non-set operands; arguments overlapping, "
              "disjoint, invalid, colliding after coercion, unhashable; 8-item universe; with and "
              "without an observe('<name>.items') handler, raw notifier before/after the other "
-             "notifiers. Exhaustive over all start sets of size 0..3 x all single operations of "
+             "notifiers; and, for the bare flavours, sets nobody listens to (built without "
+             "notifiers, or copies left without one), judged on contents, return value, "
+             "exception class and failure atomicity only. Exhaustive over all start sets of size 0..3 x all single operations of "
              "that grid, plus random 20-op histories with a copy (copy.copy, copy.deepcopy, "
              "pickle protocol 0..5) taken at a random point, checked against the copy law and "
              "then driven by the rest of the history. distinct_nontrivial counts distinct "
@@ -39,15 +41,22 @@ META = {
              "was raised, and (flavour, copy mode, size class) signatures of copies."),
     "phases": [{"name": "main", "flavour": "P", "shards": 16}],
     "gates": {
-        "quick": {"evaluations": 150000, "events_checked": 70000, "failures_checked": 28000,
-                  "silent_noops_checked": 70000, "history_ops": 90000, "copies_checked": 4000,
+        "quick": {"evaluations": 150000, "events_checked": 60000, "failures_checked": 28000,
+                  "silent_noops_checked": 60000, "history_ops": 90000, "copies_checked": 4000,
                   "ops_on_copies": 22000, "exhaustive_cases": 45000,
-                  "observer_events_checked": 24000, "copy_probes": 8500},
-        "thorough": {"evaluations": 2500000, "events_checked": 1000000, "failures_checked": 550000,
-                     "silent_noops_checked": 1300000, "history_ops": 2200000,
+                  "observer_events_checked": 24000, "copy_probes": 8500,
+                  # sets nobody listens to (never had a notifier, or a fresh copy)
+                  "unwatched_evaluations": 100000, "unwatched_failures_checked": 15000,
+                  "unwatched_bulk_rejections_checked": 4000, "copies_continued_unwatched": 1500,
+                  "exhaustive_unwatched_cases": 75000},
+        "thorough": {"evaluations": 2500000, "events_checked": 900000, "failures_checked": 550000,
+                     "silent_noops_checked": 1100000, "history_ops": 2200000,
                      "copies_checked": 90000, "ops_on_copies": 550000,
                      "exhaustive_cases": 45000, "observer_events_checked": 250000,
-                     "copy_probes": 190000},
+                     "copy_probes": 190000,
+                     "unwatched_evaluations": 800000, "unwatched_failures_checked": 200000,
+                     "unwatched_bulk_rejections_checked": 50000,
+                     "copies_continued_unwatched": 40000, "exhaustive_unwatched_cases": 75000},
     },
     "exhaustive_parts": "all single operations of the grid in `rule` on every start set of size "
                         "0..3 over the validated item universe of each flavour",
@@ -121,8 +130,14 @@ class Box(HasTraits):
 class Env:
     """One set under test with its recorders."""
 
-    def __init__(self, flavour, items, n_obs=0, raw_first=True, ctor_notifier=False, ts=None):
+    def __init__(self, flavour, items, n_obs=0, raw_first=True, ctor_notifier=False, ts=None,
+                 silent=False):
+        """silent: no notifier of any kind is ever attached by the harness (a bare
+        TraitSet's `notifiers` stays empty); ts: wrap an existing set (a copy)."""
         self.flavour = flavour
+        self.silent = silent
+        if silent:
+            assert not n_obs and not ctor_notifier and (ts is not None or flavour != "tso")
         self.raw = []
         self.obs_log = []
         self.n_obs = n_obs
@@ -156,7 +171,7 @@ class Env:
                 self.root.observe(handler, "x.items")
             else:
                 self.root.observe(handler, "s.items")
-        if not pre:
+        if not pre and not silent:
             ns = self.ts.notifiers
             ns.insert(0 if raw_first else len(ns), rec)
 
@@ -410,7 +425,15 @@ def check_one(ctx, env, model, op, copied=False, key_prefix=""):
     changed = after != before
     evs = [e[1:] for e in env.raw]
     prefix = None
-    if complaint is None:
+    if env.silent:
+        # nobody listens: contents, return value, exception class and failure
+        # atomicity (all judged above) are all there is to observe
+        ctx.count("unwatched_evaluations")
+        if rr[0] == "exc":
+            ctx.count("unwatched_failures_checked")
+            if bad and len(validated_items(op, before)) > 1:
+                ctx.count("unwatched_bulk_rejections_checked")
+    if complaint is None and not env.silent:
         if any(not e[0] for e in env.raw):
             complaint = "notifier-got-another-set"
         elif changed and len(evs) != 1:
@@ -444,16 +467,19 @@ def check_one(ctx, env, model, op, copied=False, key_prefix=""):
     if changed or evs or rr[0] == "exc":
         evshape = tuple((min(len(r), 2), min(len(a), 2)) for r, a in evs[:2])
         ctx.sig(flavour, op[0], arg_shape(op), overlap_class(op, before), min(len(before), 3),
-                rr[0] if rr[0] == "ok" else rr[1].__name__, evshape, bad, env.n_obs, copied)
+                rr[0] if rr[0] == "ok" else rr[1].__name__, evshape, bad, env.n_obs, copied,
+                env.silent)
     if complaint:
         name = op[0] + ("-hostile" if hostile_difference(op) else "")
         key = "%s%s/%s" % (key_prefix, prefix or name, complaint)
         ctx.violation(
-            key, "%s on %s set%s: op=%r model=%r real=%r events=%r observer=%r before=%r after=%r "
-                 "banned=%r" % (complaint, flavour, " (a copy)" if copied else "", op, rm, rr,
+            key, "%s on %s set%s%s: op=%r model=%r real=%r events=%r observer=%r before=%r after=%r "
+                 "banned=%r" % (complaint, flavour, " (a copy)" if copied else "",
+                                " (no notifier attached)" if env.silent else "", op, rm, rr,
                                 env.raw[:3], env.obs_log[:3], before, after, sorted(BANNED, key=repr)),
             {"flavour": flavour, "before": before, "op": op, "events": env.raw[:3],
              "after": after, "model_outcome": rm, "real_outcome": rr, "copied": copied,
+             "silent": env.silent,
              "banned": sorted(BANNED, key=repr)})
     return complaint
 
@@ -465,6 +491,9 @@ def copy_modes():
     return modes
 
 
+COPY_MODES = copy_modes()
+
+
 def do_copy(ts, mode, proto):
     if mode == "copy":
         return copy.copy(ts)
@@ -473,9 +502,11 @@ def do_copy(ts, mode, proto):
     return pickle.loads(pickle.dumps(ts, proto))
 
 
-def check_copy(ctx, env, model, mode, proto):
+def check_copy(ctx, env, model, mode, proto, watch=True):
     """Copy law.  Returns (complaint, Env of the copy or None).  The copy is
-    expected to keep validating unless it is a detached TraitSetObject."""
+    expected to keep validating unless it is a detached TraitSetObject.  With
+    watch=False no notifier is attached to a bare copy (copies drop the transient
+    notifiers and keep the validator: a validating set nobody listens to)."""
     flavour, ts = env.flavour, env.ts
     env.clear_logs()
     ctx.ev()
@@ -509,7 +540,9 @@ def check_copy(ctx, env, model, mode, proto):
     if complaint is None:
         keeps_validating = flavour != "tso" or mode == "deepcopy"
         if keeps_validating:
-            cenv = Env(flavour, (), ts=c, raw_first=False)
+            unwatched = not watch and flavour != "tso"
+            cenv = Env(flavour, (), ts=c, raw_first=False, silent=unwatched)
+            ctx.count("copies_continued_" + ("unwatched" if unwatched else "watched"))
             cmodel = set(model)
             probes = []
             if flavour != "none":
@@ -533,7 +566,7 @@ def check_copy(ctx, env, model, mode, proto):
             c.discard(next(iter(model), 9))
         if set(ts) != model:
             complaint = "original-changed-by-mutating-copy"
-        elif env.raw:
+        elif env.raw and not env.silent:
             complaint = "original-notified-by-mutating-copy"
     if complaint:
         ctx.violation("copy/%s/%s" % (mode, complaint),
@@ -690,6 +723,24 @@ def run(ctx):
                     model = set(state)
                     check_one(ctx, env, model, op)
                     ctx.count("exhaustive_cases")
+                    if flavour != "tso":
+                        # nobody listening: never had a notifier / a fresh copy
+                        env = Env(flavour, state, silent=True)
+                        check_one(ctx, env, set(state), op)
+                        ctx.count("exhaustive_cases")
+                        ctx.count("exhaustive_unwatched_cases")
+                        mode, proto = COPY_MODES[g % len(COPY_MODES)]
+                        if mode != "deepcopy" or g % 3 == 0:
+                            env = Env(flavour, state, ctor_notifier=True)
+                            try:
+                                c = do_copy(env.ts, mode, proto)
+                            except Exception:
+                                c = None             # judged by the copy law below
+                            if type(c) is TraitSet and set(c) == set(state) and not c.notifiers:
+                                cenv = Env(flavour, (), ts=c, silent=True)
+                                check_one(ctx, cenv, set(state), op, copied=True)
+                                ctx.count("exhaustive_cases")
+                                ctx.count("exhaustive_unwatched_cases")
                 if batch:
                     ctx.sample({"flavour": flavour, "start": state, "op": batch[len(batch) // 2][1]})
             finally:
@@ -724,8 +775,18 @@ def run(ctx):
             uni = list(UNIVERSE[flavour])
             rng.shuffle(uni)
             state = uni[:rng.randint(0, 4)]
-            env = Env(flavour, state, n_obs=rng.choice([0, 0, 1]), raw_first=rng.random() < 0.5,
-                      ctor_notifier=rng.random() < 0.5)
+            n_obs = rng.choice([0, 0, 1])
+            raw_first, ctor_notifier = rng.random() < 0.5, rng.random() < 0.5
+            # nobody-listening ingredients (bare flavours only: a TraitSetObject
+            # always carries its own notifier)
+            silent = flavour != "tso" and n_obs == 0 and rng.random() < 0.35
+            watch_copy = rng.random() < 0.4
+            if silent:
+                env = Env(flavour, state, silent=True)
+                ctx.count("histories_started_unwatched")
+            else:
+                env = Env(flavour, state, n_obs=n_obs, raw_first=raw_first,
+                          ctor_notifier=ctor_notifier)
             model = set(state)
             r = rng.random()
             mode, proto = (None, None) if r < 0.2 else modes[0] if r < 0.35 else \
@@ -737,7 +798,7 @@ def run(ctx):
             for step in range(20):
                 if mode and step == copy_at:
                     ops.append(("<copy>", mode, proto))
-                    complaint, cenv = check_copy(ctx, env, model, mode, proto)
+                    complaint, cenv = check_copy(ctx, env, model, mode, proto, watch=watch_copy)
                     if complaint:
                         break
                     if cenv is not None:
@@ -762,7 +823,7 @@ def run(ctx):
             else:
                 if orig_env is not None:
                     ctx.ev()
-                    if set(orig_env.ts) != orig_model or orig_env.raw:
+                    if set(orig_env.ts) != orig_model or (orig_env.raw and not orig_env.silent):
                         ctx.violation("copy/%s/original-disturbed-by-history-on-copy" % mode,
                                       "operations on the copy changed or notified the original: "
                                       "original=%r expected=%r events=%r"
